@@ -7,7 +7,7 @@
 # alarm. File name: H<nn>-<what>.diff; the property is given in the table below.
 cd /verif
 export VERIF_EVIDENCE_DIR=/verif/.work/evidence-scratch  # keep the evidence of the unchanged tree
-declare -A prop=( [H01]=C05 [H02]=C10 [H03]=C15 [H04]=C03 [H05]=C06 [H06]=C13 [H07]=C07 [H08]=C17 [H09]=C05 [H10]=C01 [H11]=C18 [H12]=C04 [H13]=C11 [H14]=C01 [H15]=C12 )
+declare -A prop=( [H01]=C05 [H02]=C10 [H03]=C15 [H04]=C03 [H05]=C06 [H06]=C13 [H07]=C07 [H08]=C17 [H09]=C05 [H10]=C01 [H11]=C18 [H12]=C04 [H13]=C11 [H14]=C01 [H15]=C12 [H16]=C08 )
 fail=0
 for f in /verif/selftest/harmless/${1:-}*.diff; do
   h=$(basename $f | cut -d- -f1); id=${prop[$h]}
